@@ -4,6 +4,11 @@ mod generic;
 mod kzg;
 mod marlin;
 mod props_marlin;
+mod props_sonic;
+mod props_ipa;
+mod props_hyrax;
+mod props_lincode;
+mod props_mlpc;
 mod props_kzg;
 mod props_c04;
 mod props_c06;
@@ -181,6 +186,13 @@ fn main() {
             eprintln!("unknown property {}", prop);
             std::process::exit(2);
         }
+    }
+    if !ctx.child {
+        props_sonic::run(&mut ctx, &prop);
+        props_ipa::run(&mut ctx, &prop);
+        props_hyrax::run(&mut ctx, &prop);
+        props_lincode::run(&mut ctx, &prop);
+        props_mlpc::run(&mut ctx, &prop);
     }
     ctx.flush_model(&format!("{}-final", prop));
     let json = ctx.rep.to_json(&format!("{}/replays", workdir));
